@@ -48,17 +48,18 @@ type Violation struct {
 }
 
 type Replay struct {
-	Layout  string    `json:"layout"`
-	Kind    string    `json:"kind"`
-	Op      *Op       `json:"op,omitempty"`
-	Text    string    `json:"text,omitempty"`
-	Assign  Assign    `json:"assign,omitempty"`
-	Limit   *int      `json:"limit,omitempty"`
-	History []histReq `json:"history,omitempty"`
-	Fixed   bool      `json:"fixed_limit_server,omitempty"`
-	Fault   *ctxFault `json:"context_fault,omitempty"`
-	A       *int      `json:"a,omitempty"` // safeAdd operands
-	B       *int      `json:"b,omitempty"`
+	Layout   string    `json:"layout"`
+	Kind     string    `json:"kind"`
+	Op       *Op       `json:"op,omitempty"`
+	Text     string    `json:"text,omitempty"`
+	Assign   Assign    `json:"assign,omitempty"`
+	Limit    *int      `json:"limit,omitempty"`
+	History  []histReq `json:"history,omitempty"`
+	Fixed    bool      `json:"fixed_limit_server,omitempty"`
+	Fault    *ctxFault `json:"context_fault,omitempty"`
+	Schedule []int     `json:"in_flight_schedule,omitempty"` // which request runs its next segment
+	A        *int      `json:"a,omitempty"`                  // safeAdd operands
+	B        *int      `json:"b,omitempty"`
 }
 
 type Result struct {
@@ -85,24 +86,40 @@ type Config struct {
 	HTTPMax     int // sizes <= this: additionally through handler.Server + POST
 	HistMax     int // sizes <= this: request histories through a long-lived executor
 	CtxMax      int // sizes <= this: context-fault enumeration
+	ConcMax     int // sizes <= this: two requests in flight on one server
 	Grammar     *Grammar
+	TopGrammar  *Grammar // used for the largest size
 	Deadline    time.Time
 }
 
-func grammarFor(tier string) *Grammar {
+// grammarFor: top = the grammar used for the LARGEST operation size of a quick run. Bounds are
+// lowered before alphabets are thinned: all sizes below the top use the full alphabet; at the
+// top size of the quick tier three redundant-at-that-size variants are left out (they are all
+// enumerated in operations of smaller size, and at every size in the thorough tier).
+func grammarFor(tier string, top bool) *Grammar {
 	g := &Grammar{memoS: map[string][][]*Node{}, memoN: map[string][]*Node{}}
 	g.Roots = []string{"query", "mutation"}
 	g.VarModes = []int{VarGiven, VarDefault, VarAbsent, VarNull}
 	g.Fields = map[string][]string{
-		"Query": {"str", "arg", "t", "targ", "node", "u", "rep", "__typename", "__schema", "__type"}, "Mutation": {"m1", "m3"},
+		"Query": {"str", "arg", "t", "targ", "node", "u", "rep", "ent", "__typename", "__schema", "__type"}, "Mutation": {"m1", "m3"},
+		"Ent":      {"score", "related"},
 		"__Schema": {"__typename", "queryType"}, "__Type": {"name"},
 		"Rep": {"old", "rows", "newFoo", "new_foo"}, "Row": {"id"},
 		"T": {"id", "name", "kid", "peer", "u", "__typename"}, "S": {"id", "peer"}, "Node": {"id", "__typename"},
 		"Named": {"name"}, "Deep": {"peer"}, "U": {"__typename"}}
-	g.Alias = map[string]bool{"Query.str": true, "T.id": true}
+	// the same field twice in one selection set needs an alias; with arguments: one aliased form
+	// next to every plain form ("arg(x:3) z:arg", "z:arg arg(x:3)", ...)
+	g.Alias = map[string]bool{"Query.str": true, "T.id": true, "Query.arg": true, "Query.targ": true, "Ent.score": true, "Ent.related": true}
+	g.AliasOnly = map[string][]int{"Query.arg": {ArgNone}, "Query.targ": {ArgNone}, "Ent.score": {ArgNone, ArgLit}, "Ent.related": {ArgNone}}
+	g.Forms = map[string][]int{"Ent.score": {ArgNone, ArgLit, ArgVar}, "Ent.related": {ArgNone, ArgLit}}
 	g.ArgForms = []int{ArgNone, ArgLit, ArgVar, ArgBoth, ArgNeg, ArgNull}
 	g.TargForms = []int{ArgNone, ArgLit, ArgVar}
 	g.Conds = []string{"Query", "T", "S", "Node", "Named", "Deep", "U"}
+	if top && tier == "quick" {
+		delete(g.Alias, "Query.arg")                         // z:arg
+		delete(g.Alias, "Query.targ")                        // z:targ{...}
+		g.ArgForms = []int{ArgNone, ArgLit, ArgVar, ArgBoth} // no arg(x:-4), arg(x:null)
+	}
 	return g
 }
 
@@ -492,6 +509,110 @@ func (w *worker) gate(order []int, p *prepared, as Assign, es graphql.Executable
 	}
 }
 
+// ---- two requests in flight on one server ----
+
+// inFlight runs two requests concurrently through ONE executor (FixedComplexityLimit(limit), LRU
+// document cache) under a hand-rolled cooperative schedule: a request runs until its next custom
+// complexity function call (the only preemption points) or its end, then the schedule decides
+// which request continues. Every schedule (order of the segments of the two requests) is
+// enumerated by depth-first search over the choices. Oracle: each request is admitted/rejected and
+// executed exactly as it is alone (judge, the single-request oracle). This is not the vrt
+// scheduler: preemption happens only at custom complexity function calls.
+func (w *worker) inFlight(order []int, es graphql.ExecutableSchema, text string, as Assign, limit int, reqs [2]histReq, rp Replay) {
+	prefix := []int{}
+	for {
+		steps, bad := w.runSchedule(es, text, limit, reqs, prefix)
+		w.counts["in_flight_schedules"]++
+		if bad != "" {
+			var sched []int
+			for _, st := range steps {
+				sched = append(sched, st[0])
+			}
+			reqs[0].Limit, reqs[1].Limit = limit, limit
+			rp.History = reqs[:]
+			rp.Fixed = true
+			rp.Schedule = sched
+			w.report(order, "in-flight", fmt.Sprintf("in-flight:%s|%s|L=%d|%s+%s|%v", text, asString(as), limit, reqs[0].Label, reqs[1].Label, sched),
+				fmt.Sprintf("two requests in flight on one executor (A: %s, B: %s; segment schedule %v, 0=A 1=B; FixedComplexityLimit(%d)) on %s | custom %s: %s", reqs[0].Label, reqs[1].Label, sched, limit, text, asString(as), bad), rp)
+			return
+		}
+		// next schedule: bump the last choice that has an untried alternative
+		i := len(steps) - 1
+		for i >= 0 && steps[i][0]+1 >= steps[i][1] {
+			i--
+		}
+		if i < 0 {
+			return
+		}
+		prefix = prefix[:0]
+		for _, st := range steps[:i] {
+			prefix = append(prefix, st[0])
+		}
+		prefix = append(prefix, steps[i][0]+1)
+	}
+}
+
+// runSchedule executes one schedule; prefix gives the first choices (index into the list of
+// unfinished requests), later choices default to 0. Returns the steps taken as
+// {choice, alternatives} and a description of the first oracle disagreement.
+func (w *worker) runSchedule(es graphql.ExecutableSchema, text string, limit int, reqs [2]histReq, prefix []int) (steps [][2]int, bad string) {
+	sess := w.newSession(es, &limit, false, lru.New[*ast.QueryDocument](4))
+	type event struct {
+		who  int
+		done bool
+	}
+	events := make(chan event)
+	resume := [2]chan struct{}{make(chan struct{}), make(chan struct{})}
+	var outs [2]gateOutcome
+	var started, finished [2]bool
+	cur := -1
+	onCustomCall = func() {
+		me := cur
+		events <- event{me, false}
+		<-resume[me]
+		cur = me
+	}
+	defer func() { onCustomCall = nil }()
+	for !(finished[0] && finished[1]) {
+		var alts []int
+		for i := 0; i < 2; i++ {
+			if !finished[i] {
+				alts = append(alts, i)
+			}
+		}
+		choice := 0
+		if len(steps) < len(prefix) {
+			choice = prefix[len(steps)]
+		}
+		steps = append(steps, [2]int{choice, len(alts)})
+		who := alts[choice]
+		cur = who
+		if !started[who] {
+			started[who] = true
+			go func(i int) {
+				outs[i] = w.do(sess, text, reqs[i].OpName, reqs[i].RawVars, nil)
+				events <- event{i, true}
+			}(who)
+		} else {
+			resume[who] <- struct{}{}
+		}
+		e := <-events
+		w.counts["in_flight_segments"]++
+		if e.who != who {
+			return steps, fmt.Sprintf("harness: segment of request %d ended with an event of request %d", who, e.who)
+		}
+		if e.done {
+			finished[who] = true
+		}
+	}
+	for i := 0; i < 2; i++ {
+		if msg := judge(&outs[i], reqs[i].cref, limit, reqs[i].base); msg != "" {
+			return steps, fmt.Sprintf("request %s (alone: reference %d): %s", reqs[i].Label, reqs[i].cref, msg)
+		}
+	}
+	return steps, ""
+}
+
 // ---- context faults: the request context is done before / becomes done during the walk ----
 
 // ctxFault is one placement of "the request context is done".
@@ -666,6 +787,21 @@ func (w *worker) evalOp(p *prepared) {
 		}
 	}
 
+	// order independence (differential, no reference involved): the operation with every
+	// selection set reversed must have the same complexity
+	var reversed *prepared
+	if rop := p.op.Reversed(); rop.Text() != p.text {
+		rt := rop.Text()
+		if doc, errs := gqlparser.LoadQuery(w.schema, rt); len(errs) == 0 {
+			if vars, err := validator.VariableValues(w.schema, doc.Operations[0], p.rawVars); err == nil {
+				reversed = &prepared{op: rop, text: rt, doc: doc, def: doc.Operations[0], vars: vars}
+			}
+		}
+		if reversed == nil {
+			w.counts["reversed_not_valid"]++
+		}
+	}
+
 	assignments(p.relevant, func(ai int, as Assign) {
 		order := []int{size, p.idx, ai}
 		w.counts["op_x_assignment"]++
@@ -700,13 +836,28 @@ func (w *worker) evalOp(p *prepared) {
 					fmt.Sprintf("complexity decreased when selections were added: %s = %d but %s = %d | custom %s", sp.text, cs, p.text, cimpl, asString(as)), rp)
 			}
 		}
+		if reversed != nil && len(as) <= 1 {
+			cr, err := calc(es, reversed.def, reversed.vars)
+			w.counts["calculate_calls"]++
+			w.counts["order_independence_pairs"]++
+			if err != nil || cr != cimpl {
+				w.report(order, "order", "order:"+p.text+"|"+asString(as),
+					fmt.Sprintf("complexity depends on the order of selections: %s = %d but %s = %d (err %v) | custom %s", p.text, cimpl, reversed.text, cr, err, asString(as)), rp)
+			}
+		}
 		// histories over the variable family: every ordered pair (and a-b-a triple) of variants
 		// through one long-lived executor with FixedComplexityLimit. Run for the assignments under
 		// which the variants' reference values can differ (a custom function that reads the
 		// argument) and for "no custom function".
 		// (operations above the full-gate size: without a second, unrelated deviating field)
-		readsArg := as["Query.arg"] == FnChildArg || as["Query.targ"] == FnChildArg
-		onlyArgFns := len(as) == 1 || (len(as) == 2 && as["Query.arg"] == FnChildArg && as["Query.targ"] == FnChildArg)
+		nArgFns := 0 // custom functions of the assignment that read the argument
+		for k, fn := range as {
+			if _, ok := argDefault[k]; ok && fn == FnChildArg {
+				nArgFns++
+			}
+		}
+		readsArg := nArgFns > 0
+		onlyArgFns := len(as) == 1 || nArgFns == len(as)
 		if variants != nil && (len(as) == 0 || (readsArg && (fullGate || onlyArgFns))) {
 			w.counts["variable_family_op_x_assignment"]++
 			cs := make([]int, len(variants))
@@ -732,6 +883,18 @@ func (w *worker) evalOp(p *prepared) {
 						hi++
 						w.runHistory(append(order, 1<<20+hi), es, p.text, as, true, []histReq{mk(a, up), mk(b, up)}, rp)
 					}
+				}
+			}
+			// two requests IN FLIGHT on one server (same text, different variables): every order of
+			// their custom-complexity-call segments
+			if readsArg && nArgFns == len(as) && size <= w.cfg.ConcMax {
+				pairs := [][2]int{{0, 1}, {1, 2}}
+				if !fullGate {
+					pairs = pairs[:1] // above the full-gate size: v=2 with v=9 only
+				}
+				for ci, pr := range pairs {
+					a, b := pr[0], pr[1]
+					w.inFlight(append(order, 1<<20+500+ci), es, p.text, as, min(cs[a], cs[b]), [2]histReq{mk(a, 0), mk(b, 0)}, rp)
 				}
 			}
 		}
@@ -1001,6 +1164,7 @@ func main() {
 	httpMax := flag.Int("http", 4, "sizes <= this also go through HTTP POST")
 	histMax := flag.Int("hist", 4, "sizes <= this get request histories through a long-lived executor")
 	ctxMax := flag.Int("ctx", 4, "sizes <= this get the context-fault enumeration")
+	concMax := flag.Int("conc", 4, "sizes <= this get the two-requests-in-flight enumeration")
 	budget := flag.Int("budget", 100, "seconds")
 	shard := flag.Int("shard", 0, "this process handles generated operations with index % shards == shard")
 	shards := flag.Int("shards", 1, "number of harness processes")
@@ -1014,7 +1178,7 @@ func main() {
 		writeResult(*out, res)
 		os.Exit(2)
 	}
-	cfg := &Config{Layout: *layout, MaxNodes: *maxNodes, FullGateMax: *fullGate, HTTPMax: *httpMax, HistMax: *histMax, CtxMax: *ctxMax, Grammar: grammarFor(*tier),
+	cfg := &Config{Layout: *layout, MaxNodes: *maxNodes, FullGateMax: *fullGate, HTTPMax: *httpMax, HistMax: *histMax, CtxMax: *ctxMax, ConcMax: *concMax, Grammar: grammarFor(*tier, false), TopGrammar: grammarFor(*tier, true),
 		Deadline: time.Now().Add(time.Duration(*budget) * time.Second)}
 
 	if err := selfCheckFns(); err != nil {
@@ -1076,7 +1240,11 @@ func main() {
 		last := size == cfg.MaxNodes
 		var keep []*prepared
 		j := -1
-		cfg.Grammar.Enumerate(size, func(op *Op) {
+		gram := cfg.Grammar
+		if last {
+			gram = cfg.TopGrammar
+		}
+		gram.Enumerate(size, func(op *Op) {
 			j++
 			// multiplicative hash of the index: plain j % shards lines up with the periods of the
 			// enumeration (argument forms, aliases) and gives very uneven shards
@@ -1104,6 +1272,9 @@ func main() {
 				return
 			}
 			res.PerSize[fmt.Sprint(size)]++
+			if os.Getenv("C14_COUNTONLY") != "" { // measuring aid: size of the operation space only
+				return
+			}
 			w.evalOp(p)
 		})
 		if expired {
